@@ -4,7 +4,7 @@ import json
 
 import common
 
-FAMILY_MODULE = {"lexer": "fam_lexer", "simple": "fam_simple", "parser": "fam_parser", "grammar": "fam_grammar", "compose": "fam_compose"}
+FAMILY_MODULE = {"lexer": "fam_lexer", "simple": "fam_simple", "parser": "fam_parser", "grammar": "fam_grammar", "compose": "fam_compose", "sched": "fam_sched"}
 
 
 def main(path):
